@@ -119,9 +119,77 @@ def gen_shared_field_case(rng, k):
     return c
 
 
+def gen_star_case(rng, k):
+    """`.*` precision: the VALUE is a field of a type parameter, the precision a usize field or literal, and further
+    implicit placeholders follow; the bounds belong to the values' types"""
+    c = BCase()
+    c.k = k
+    c.notes = ["star"]
+    trait = rng.choice(["Display", "Display", "LowerExp", "UpperExp", "Debug"])
+    l = LETTER[trait]
+    an = F.ATTR_OF[trait]
+    named = rng.random() < 0.5
+    v, p, h = ("val", "prec", "other") if named else ("_0", "_1", "_2")
+    prec = rng.choice(["*%s" % p, "*%s" % p, "2", "3usize"])
+    vty, hty = rng.choice(["T", "W<T>"]), rng.choice(["U", "W<U>", "W<W<U>>"])
+    shape = rng.randrange(6)
+    formatted = {"T"}
+    if shape == 0:
+        lit, args = "{:.*%s}" % l, [prec, v]
+    elif shape == 1:
+        lit, args = "{:.*%s} <{%s}>" % (l, ":" + l if l else ""), [prec, v, h]
+        formatted.add("U")
+    elif shape == 2:
+        lit, args = "{%s:.*%s} [{%s}]" % (v, l, ":" + l if l else ""), [prec, h]
+        formatted.add("U")
+    elif shape == 3:
+        lit, args = "{2:.*%s} [{%s}]" % (l, ":" + l if l else ""), [prec, h, v]
+        formatted.add("U")
+    elif shape == 4:
+        lit, args = "{%s}|{x:.*%s}|{%s}" % (":" + l if l else "", l, ":" + l if l else ""), [h, prec, v, "x = %s" % v]
+        formatted.add("U")
+    else:
+        lit, args = "{%s:.*%s}" % (v, l), [prec]
+    fields = [(v, vty), (p, "usize"), (h, hty), ("ph" if named else "_3", "PhantomData<V>")]
+    body = (" { %s }" % ", ".join("%s: %s" % f for f in fields)) if named else "(%s);" % ", ".join(t for _, t in fields)
+    c.decl = "#[derive(derive_more::%s)] #[%s(%s)] pub struct Ty<T, U, V>%s" % (trait, an, ", ".join([F.rust_lit(lit)] + args), body)
+    c.trait = trait
+    c.params = ["T", "U", "V"]
+    c.formatted = formatted
+    return c
+
+
+def gen_unit_bound_case(rng, k):
+    """a FIELD-LESS variant (`V`, `V()`, `V {}`) whose format uses a type parameter through an expression, the bound it
+    needs being given by a variant-level bound(...): the predicate has to reach the impl although the variant has no field"""
+    c = BCase()
+    c.k = k
+    c.notes = ["unit-variant-bound"]
+    # (not Debug: that derive reads a variant's attributes as formats only, bound(...) goes on the enum there)
+    trait = rng.choice([t for t in ALL_TRAITS if t != "Debug"])
+    an = F.ATTR_OF[trait]
+    l = LETTER[trait]
+    shape = rng.choice(["", "()", " {}"])
+    kw = rng.choice(["bound", "bounds"])
+    unit = "#[%s(%s(T: core::fmt::%s))] #[%s(\"%s{%s}\", T::default())] Unit%s" % (
+        an, kw, trait, an, rng.choice(["", "dflt: "]), ":" + l if l else "", shape)
+    other = "#[%s(\"x\")] Ph(PhantomData<T>, PhantomData<U>)" % an
+    vs = [unit, other] if rng.random() < 0.5 else [other, unit]
+    gen, where = rng.choice([("<T: Default, U>", ""), ("<T, U>", " where T: Default")])
+    c.decl = "#[derive(derive_more::%s)] pub enum Ty%s%s { %s }" % (trait, gen, where, ", ".join(vs))
+    c.trait = trait
+    c.params = ["T", "U"]
+    c.formatted = {"T"}
+    return c
+
+
 def gen_case(rng, k):
+    if rng.random() < 0.04:
+        return gen_unit_bound_case(rng, k)
     if rng.random() < 0.07:
         return gen_shared_field_case(rng, k)
+    if rng.random() < 0.06:
+        return gen_star_case(rng, k)
     c = BCase()
     c.k = k
     trait = rng.choice(ALL_TRAITS + ["Display", "Debug", "Debug"])
